@@ -402,6 +402,7 @@ static Fate gen_fate(Sim *S, int stream, uint64_t ord, uint64_t now, const Dgram
 {
 	Fate f;
 	const FaultCfg &c = S->faults;
+	if (c.dr1 > c.dr0 && now >= c.dr0 && now < c.dr1 && d.src_host == c.dr_host) { f.drop = true; S->count("fault.drought_drop"); return f; }
 	if (!c.enabled() || now < c.t0 || now >= c.t1) return f;
 	uint64_t key = ((uint64_t)stream << 40) ^ ord;
 	if (c.p_redeliv > 0 && d.dst.port == 53 && d.data.size() > 12 && !(d.data[2] & 0x80) && S->U("fate.rd", key) < c.p_redeliv) {
